@@ -419,4 +419,67 @@ theorem completion_reaches_parsers_context (E : Env) (help : HelpFn) (P : Parser
     rw [hw, hend]
     exact ⟨rfl, hag'.cmd.symm, hag'.pos.symm, hag'.rest⟩
 
+theorem mem_dedupNat (l : List Nat) (x : Nat) (h : x ∈ l) :
+    x ∈ l.foldl (fun acc x => if acc.contains x then acc else acc ++ [x]) [] := by
+  suffices ∀ (l acc : List Nat), (x ∈ acc ∨ x ∈ l) →
+      x ∈ l.foldl (fun acc x => if acc.contains x then acc else acc ++ [x]) acc from
+    this l [] (Or.inr h)
+  intro l
+  induction l with
+  | nil => intro acc h; simpa using h
+  | cons y ys ih =>
+    intro acc h
+    simp only [List.foldl_cons]
+    apply ih
+    by_cases hc : acc.contains y = true
+    · simp only [hc, if_true]
+      rcases h with h | h
+      · exact Or.inl h
+      · rcases List.mem_cons.mp h with h | h
+        · left; subst h; simpa using hc
+        · exact Or.inr h
+    · simp only [hc]
+      rcases h with h | h
+      · left; simp [h]
+      · rcases List.mem_cons.mp h with h | h
+        · left; simp [h]
+        · exact Or.inr h
+
+/-- **A bare dash leaves no reachable option out** (after the D28 repair).  An option of the command context
+    that is not hidden and that a short name `x` of the context resolves to is offered for a bare dash: under
+    that short name, or — when it was already offered by a long name — under a long name that resolves to that
+    very option. -/
+theorem bare_dash_offers_every_reachable_option (s : CS) (pfx : Bytes) (x : Nat) (r : ORef)
+    (hx : x ∈ (((s.P.chain s.cmd).flatMap fun a => (s.P.cmd a).orefs a).filter fun r => (s.P.opt r).short ≠ 0).map
+            fun r => (s.P.opt r).short)
+    (hl : s.P.lookupShort s.cmd x = some r) (hv : (s.P.opt r).hidden = false) :
+    (B "-" ++ encodeRune x, (s.P.opt r).desc) ∈ completeOptionNames s pfx [] true ∨
+    ∃ n, s.P.lookupLong s.cmd n = some r ∧ (B "--" ++ n, (s.P.opt r).desc) ∈ completeOptionNames s pfx [] true := by
+  unfold completeOptionNames
+  simp only [ne_eq, not_true_eq_false, decide_false, Bool.and_false, Bool.false_eq_true, if_false, Bool.not_true]
+  have hx' := mem_dedupNat _ x hx
+  by_cases hrep : r ∈ (((dedup ((((s.P.chain s.cmd).flatMap fun a => (s.P.cmd a).orefs a).filter fun r => (s.P.opt r).long ≠ []).map s.P.longNS)).filterMap
+        fun n => (s.P.lookupLong s.cmd n).map fun r => (n, r)).filter fun (n, r) => hasPrefix n [] && !(s.P.opt r).hidden).map fun (_, r) => r
+  · right
+    simp only [List.mem_map, List.mem_filter, List.mem_filterMap] at hrep
+    obtain ⟨⟨n, r'⟩, ⟨⟨n', hn', hlook⟩, hf⟩, rfl⟩ := hrep
+    cases hq : s.P.lookupLong s.cmd n' with
+    | none => simp [hq] at hlook
+    | some r'' =>
+      simp [hq] at hlook
+      obtain ⟨rfl, rfl⟩ := hlook
+      refine ⟨n', hq, ?_⟩
+      apply List.mem_append_left
+      simp only [List.mem_map, List.mem_filter, List.mem_filterMap]
+      exact ⟨(n', r''), ⟨⟨n', hn', by simp [hq]⟩, hf⟩, rfl⟩
+  · left
+    apply List.mem_append_right
+    simp only [List.mem_map, List.mem_filter, List.mem_filterMap]
+    refine ⟨(x, r), ⟨⟨x, hx', by simp [hl]⟩, ?_⟩, rfl⟩
+    simp only [Bool.and_eq_true, Bool.not_eq_true', hv, and_true]
+    refine ⟨?_, by cases (encodeRune x) <;> simp [hasPrefix]⟩
+    cases hc : List.contains _ r with
+    | false => rfl
+    | true => exact absurd (List.contains_iff_mem.mp hc) hrep
+
 end GoFlags.C18
